@@ -380,3 +380,17 @@ def instances(tier):
         out.append(Inst(cross_roles, {}, budget=300))
         out.append(Inst(dup_request, {}, budget=300))
     return out
+
+
+# ------------------------------------------------------------------ the IOCB layer: a reply is for the request it answers
+# C04's harness for requests the application gives up on runs here too: the late ack, error or abort of the abandoned request
+# must not be applied to the next request queued for that peer
+from .C04 import iocb_abort                                                    # noqa: E402
+
+_c11_instances = instances
+
+
+def instances(tier):
+    out = _c11_instances(tier)
+    out.append(Inst(iocb_abort, {}, budget=120 if tier == "quick" else 600))
+    return out
